@@ -963,6 +963,7 @@ class Server:
                     pending | connection.extra_workers,
                     return_when=asyncio.FIRST_COMPLETED,
                 )
+                finished_workers = connection.extra_workers & done
                 connection.extra_workers -= done
                 for task in done:
                     if task.cancelled():
@@ -975,6 +976,13 @@ class Server:
                         result = task.result()
                     except errors.PathIOError:
                         connection.response("451", "file system error")
+                        continue
+                    except ConnectionError:
+                        # data connection broke: the transfer is over,
+                        # the session is not
+                        if task not in finished_workers:
+                            raise
+                        connection.response("426", "data connection lost")
                         continue
                     # this is "command" result
                     if isinstance(result, bool):
